@@ -1245,6 +1245,18 @@ Proof.
   - intros rc E. destruct Hc as [-> | ->]; [discriminate|]. inversion E; subst.
     unfold ex_refs, vsum, ofnat. cbn [fold_right length]. unfold vadd, vscale, vzero. rs. f_equal; [f_equal|]; ring.
 Qed.
+Definition ex_id : RM := ((1, 0, 0), (0, 1, 0), (0, 0, 1)).
+Lemma ex_rotated :
+  (forall v : RV, mvmul Rops ex_id (mtvmul Rops ex_id v) = v) /\
+  rmsdrot_value Rops ex_pos [0%nat; 1%nat] ex_refs ex_id <> 0.
+Proof.
+  split.
+  - intros [[x y] z]. unfold ex_id, mvmul, mtvmul, vadd, vscale, vdot. rs. f_equal; [f_equal|]; ring.
+  - unfold rmsdrot_value, rmsdrot_diff, rot_frame. rewrite ex_cog2.
+    unfold vmean, norm2_sum, tsum, ofnat, ex_refs, ex_id, vsum. cbn [map fold_right length ex_pos vsub_list].
+    unfold mvmul, vnorm2, vdot, vsub, vadd, vscale, vzero. rs. change (IZR (Z.of_nat 2)) with 2.
+    apply Rgt_not_eq, Rlt_gt, sqrt_lt_R0. lra.
+Qed.
 Definition ex_evec : list RV := [(1, 0, 0); (-1, 0, 0)].
 Lemma ex_eigenvector : NoDup [0%nat; 1%nat] /\ length ex_evec = length [0%nat; 1%nat] /\ norm2_sum Rops (eig_vec Rops ex_evec) <> 0.
 Proof.
@@ -1330,6 +1342,18 @@ Lemma thm_inverse_eigenvector : forall (mass : nat -> R) (pos : RF) (ids : list 
   NoDup ids -> length evec = length ids -> norm2_sum Rops (eig_vec Rops evec) <> 0 ->
   cvc_ft Rops PI mass pos (CEigenvector ids refs evec center) (cvc_apply Rops PI mass pos (CEigenvector ids refs evec center) fc) = fc.
 Proof. exact inv_eigenvector. Qed.
+Lemma thm_inverse_rmsd_rotated : forall (mass : nat -> R) (pos : RF) (ids : list nat) (refs : list RV) (rotf : RF -> RM) (jdf : RF -> R) (fc : R),
+  NoDup ids -> length refs = length ids ->
+  (forall v : RV, mvmul Rops (rotf pos) (mtvmul Rops (rotf pos) v) = v) ->
+  rmsdrot_value Rops pos ids refs (rotf pos) <> 0 ->
+  cvc_ft Rops PI mass pos (CRmsdRot ids refs rotf jdf) (cvc_apply Rops PI mass pos (CRmsdRot ids refs rotf jdf) fc) = fc.
+Proof. exact inv_rmsd_rot. Qed.
+Lemma thm_inverse_eigenvector_rotated : forall (mass : nat -> R) (pos : RF) (ids : list nat) (refs evec : list RV) (rotf : RF -> RM) (jdf : RF -> R) (fc : R),
+  NoDup ids -> length evec = length ids ->
+  (forall v : RV, mvmul Rops (rotf pos) (mtvmul Rops (rotf pos) v) = v) ->
+  norm2_sum Rops (eig_vec Rops evec) <> 0 ->
+  cvc_ft Rops PI mass pos (CEigenvectorRot ids refs evec rotf jdf) (cvc_apply Rops PI mass pos (CEigenvectorRot ids refs evec rotf jdf) fc) = fc.
+Proof. exact inv_eigenvector_rot. Qed.
 Lemma thm_inverse_variable : forall (mass : nat -> R) (pos : RF) (cv : colvar) (f : R),
   Forall (fun p => forall fc, cvc_ft Rops PI mass pos (fst p) (cvc_apply Rops PI mass pos (fst p) fc) = fc) (cv_comps cv) ->
   ForallOrdPairs (fun p q => forall a, In a (cvc_atoms (fst p)) -> ~ In a (cvc_atoms (fst q))) (cv_comps cv) ->
